@@ -113,10 +113,14 @@ def areadOp (w : List String) : String :=
 inductive XRAct where
   | act (a : RAct)
   | setMax
+  /-- `r` (the accessors `reader_mut()` / `reader()` are called) and `c` (`read()` is called, the future dropped without a poll): the reader's
+      state is untouched; a future pending before is gone (the calls borrow the reader). -/
+  | touch
 
 def parseXRActs (s : String) : Option (List XRAct) :=
   (if s == "-" then [] else s.toList).mapM fun c =>
-    if c == 'p' then some (.act .poll) else if c == 'd' then some (.act .drop) else if c == 'm' then some .setMax else none
+    if c == 'p' then some (.act .poll) else if c == 'd' then some (.act .drop) else if c == 'm' then some .setMax
+    else if c == 'r' || c == 'c' then some .touch else none
 
 def runXR (k : Nat) : List XRAct → RSys → List (Option (Poll (Except FErr (Option Val)))) × RSys
   | [], s => ([], s)
@@ -126,6 +130,9 @@ def runXR (k : Nat) : List XRAct → RSys → List (Option (Poll (Except FErr (O
     (o :: os, s'')
   | .setMax :: r, s =>
     let (os, s'') := runXR k r ⟨s.rd.setMaxLen k, none⟩
+    (none :: os, s'')
+  | .touch :: r, s =>
+    let (os, s'') := runXR k r ⟨s.rd, none⟩
     (none :: os, s'')
 
 def areadmOp (w : List String) : String :=
@@ -172,6 +179,7 @@ def parseXAct (vs : List Val) (s : String) : Option XAct :=
   match s.toList with
   | 'm' :: r => (String.ofList r).toNat?.map .setMax
   | ['c', 's'] => some .create
+  | ['g'] => some .create          -- the accessors `writer_mut()` / `writer()`: like a future that is never polled, nothing happens
   | 'c' :: r => do
     let i ← (String.ofList r).toNat?
     let _ ← vs[i]?
